@@ -72,6 +72,15 @@ func ChildMain(jobFile, outFile string) {
 			}
 			f.Close()
 		}
+		if j.Mode != "restartloop" && len(r.Events) > 0 && len(r.Events) < 4000 {
+			w := j.Prog.Workers
+			if w <= 0 {
+				w = 2
+			}
+			if lines, ok := SchedTrace(r.Events, w); ok {
+				r.Conf = lines
+			}
+		}
 		enc.Encode(JobResult{ID: j.ID, Res: r})
 	}
 }
@@ -543,6 +552,7 @@ func Run(c *core.Ctx) {
 			fmt.Printf("tlc TraceSchedObs: %d events of %d runs judged in %.1fs\n", len(obsTrace), nrun, tr.Wall.Seconds())
 		}
 	}
+	conformance(c, jobs, results)
 	c.Cover("traces_validated_against_impl", nrun)
 	c.Cover("evaluations", nrun)
 	c.Cover("runs_by_mode", byMode)
@@ -571,4 +581,67 @@ func panicLine(s string) string {
 		}
 	}
 	return firstLine(s)
+}
+
+// conformance validates the hook-event traces of real runs against ResSched with TLC (TraceSched.tla):
+// every run must be a behaviour of the specification, action by action.
+func conformance(c *core.Ctx, jobs []Job, results map[int]*RunResult) {
+	var traces [][]map[string]interface{}
+	var owner []Job
+	perMode := map[string]int{}
+	limit := c.Pick(8, 120)
+	for _, j := range jobs {
+		r := results[j.ID]
+		if r == nil || r.Conf == nil || len(r.Violations) > 0 {
+			continue
+		}
+		if perMode[j.Mode+j.Src[:min(4, len(j.Src))]] >= limit {
+			continue
+		}
+		perMode[j.Mode+j.Src[:min(4, len(j.Src))]]++
+		traces = append(traces, r.Conf)
+		owner = append(owner, j)
+	}
+	if d := os.Getenv("VERIF_CONF_DUMP"); d != "" {
+		for i := range traces {
+			if i%10 == 0 {
+				recs := []interface{}{}
+				for _, l := range traces[i] {
+					recs = append(recs, l)
+				}
+				os.WriteFile(fmt.Sprintf("%s/trace-%d.ndjson", d, owner[i].ID), core.NDJSON(recs), 0o644)
+			}
+		}
+	}
+	t0 := time.Now()
+	res := ConformAll(traces, 8)
+	acc, rej, errs, lines, states := 0, 0, 0, 0, 0
+	for i, r := range res {
+		lines += r.Lines
+		states += r.States
+		switch {
+		case r.Err != "":
+			errs++
+			if os.Getenv("VERIF_CONF_DEBUG") != "" {
+				fmt.Printf("conformance: job %d (%s %s): TLC problem: %s\n", owner[i].ID, owner[i].Mode, owner[i].Src, r.Err)
+			}
+		case r.Accepted:
+			acc++
+		default:
+			rej++
+			if os.Getenv("VERIF_CONF_DEBUG") != "" {
+				fmt.Printf("conformance: job %d (%s %s): trace rejected at line %d of %d: %v\n", owner[i].ID, owner[i].Mode, owner[i].Src, r.HighWater, r.Lines, traces[i][min(r.HighWater-1, len(traces[i])-1)])
+				if d := os.Getenv("VERIF_CONF_DUMP"); d != "" {
+					recs := []interface{}{}
+					for _, l := range traces[i] {
+						recs = append(recs, l)
+					}
+					os.WriteFile(fmt.Sprintf("%s/rejected-%d.ndjson", d, owner[i].ID), core.NDJSON(recs), 0o644)
+				}
+			}
+		}
+	}
+	fmt.Printf("tlc TraceSched: %d traces (%d lines, %d states) validated against ResSched in %.1fs: %d accepted, %d rejected, %d tlc problems\n", len(traces), lines, states, time.Since(t0).Seconds(), acc, rej, errs)
+	c.Cover("impl_traces_accepted_by_ResSched", acc)
+	c.Cover("impl_traces_rejected_by_ResSched", rej)
 }
